@@ -2,6 +2,7 @@ package main
 
 import (
 	"fmt"
+	"strings"
 
 	"golang.org/x/tools/go/ssa"
 )
@@ -148,6 +149,10 @@ func runC02(c *Ctx) {
 	}
 	// (7) unsupported transport
 	c02Unsupported(c)
+	c02HopTransport(c, "unsupported-transport")
+	// "all remaining Via entries intact": the stamp appends a parameter to the top entry's list, so every decoded entry
+	// owns the storage of its list - built by one-element appends to its own field, or a fresh fill (shared with C14)
+	c14OrderedLists(c)
 	// (8) the stamp the hop is read from, and the header lookup behind "top Via" (shared with C07 / C17)
 	c07StampContent(c)
 	ruleHeaderFind(c, "pop-structure")
@@ -477,6 +482,56 @@ func c02DefaultPort(c *Ctx, gp *ssa.Function) {
 	}
 	c.check(seen5060 && seenPort, rule, "ViaParam.GetPort/cases", w.pos(gp.Pos()), "both the explicit-port and the 5060 default case exist", "GetPort lacks the explicit-port case or the 5060 default")
 	c.floor(rule, 3)
+}
+
+// c02HopTransport: the message leaves over the transport the hop names. The one place that can put a UDP path under a
+// transport object obtained for another protocol is findClientTransport, which lends the UDP listener's socket to a
+// transport that has no primary yet: that is guarded by "the requested transport is udp" (any spelling). Repaired as
+// D26: a Via entry or Route that says TCP, for a host learnt through a UDP listener, was sent as a datagram.
+func c02HopTransport(c *Ctx, rule string) {
+	w := c.w
+	f := c.fn(rule, "(*Proxy).findClientTransport")
+	if f == nil {
+		return
+	}
+	isUDP := func(a Atom) bool {
+		// strings.EqualFold(transport, "udp") or ToLower/ToUpper(transport) == "udp"/"UDP"
+		if a.Kind == "bool" {
+			cc, _ := callOfResult(a.X)
+			if cc == nil || w.calleeName(cc) != "strings.EqualFold" || len(cc.Call.Args) != 2 {
+				return false
+			}
+			for i := 0; i < 2; i++ {
+				if s, ok := constString(cc.Call.Args[i]); ok && strings.EqualFold(s, "udp") && isParam(f, cc.Call.Args[1-i], 3) {
+					return true
+				}
+			}
+			return false
+		}
+		if a.Kind == "eqstr" && strings.EqualFold(a.Str, "udp") {
+			cc, _ := callOfResult(a.X)
+			if cc != nil && (w.calleeName(cc) == "strings.ToLower" || w.calleeName(cc) == "strings.ToUpper") && isParam(f, cc.Call.Args[0], 3) {
+				want := strings.ToLower(a.Str)
+				if w.calleeName(cc) == "strings.ToUpper" {
+					want = strings.ToUpper(a.Str)
+				}
+				return a.Str == want
+			}
+		}
+		return false
+	}
+	n := 0
+	for _, st := range w.fieldStores(f, "FailOverClientTransport.primary") {
+		for _, v := range phiLeaves(st.Val) {
+			cc, _ := callOfResult(v)
+			if cc == nil || !strings.Contains(w.calleeName(cc), "NewUDPClientTransport") {
+				continue
+			}
+			n++
+			c.check(w.requires(f, st, isUDP, true), rule, fmt.Sprintf("findClientTransport/udp-socket-only-for-udp#%d", n), w.ipos(st), "the listener's UDP socket is lent only to a transport asked for as udp", "findClientTransport gives a transport object a UDP primary (the UDP listener's socket) without having tested that the requested transport is udp: a hop whose Via entry or Route says TCP, and whose host was learnt through a UDP listener, is sent a datagram instead of a TCP connection")
+		}
+	}
+	c.check(n >= 1, rule, "findClientTransport/udp-socket-site", w.pos(f.Pos()), "the lending site was found", "findClientTransport no longer lends the UDP listener's socket: the site the rule is anchored on was not found")
 }
 
 func c02Unsupported(c *Ctx) {
